@@ -751,7 +751,7 @@ impl<'a, 'b> TreeGen<'a, 'b> {
             // No more patterns to match on so we grab the first default row and return that
             let mut fallback = matrix.rows;
 
-            let row = fallback.swap_remove(0);
+            let mut row = fallback.swap_remove(0);
 
             let Some((assigns, _)) = then_map.get_mut(&row.then) else {
                 unreachable!()
@@ -759,9 +759,19 @@ impl<'a, 'b> TreeGen<'a, 'b> {
 
             // This is just to prevent repeated assigning clones for the same fallback
             // used in multiple places
-            // So we could just overwrite it everytime too.
             if assigns.is_empty() {
                 *assigns = row.assigns.clone();
+            } else {
+                // The same clause can be reached through several branches, each of which
+                // may have collected the clause's bindings in a different order. The hoisted
+                // clause body takes them in the order recorded first, so every other leaf
+                // must hand them over in that same order.
+                row.assigns.sort_by_key(|assign| {
+                    assigns
+                        .iter()
+                        .position(|known| known.assigned == assign.assigned)
+                        .unwrap_or(usize::MAX)
+                });
             }
 
             return DecisionTree::HoistedLeaf(row.then, row.assigns);
